@@ -67,6 +67,9 @@ def systematic():
                'PUSH("a") ~ ((PUSH("b") ~ (POP ~ PEEK) ~ "x") | (ANY ~ ANY ~ POP))', 'PUSH("a") ~ (PUSH("b") ~ (POP ~ POP)? ~ "!")? ~ POP_ALL',
                'PUSH("a") ~ PUSH("b") ~ ((PUSH("a") ~ (POP ~ POP ~ POP) ~ "!") | PEEK_ALL)', 'PUSH(ANY) ~ (!(PUSH(ANY) ~ (POP ~ POP)) ~ ANY ~ POP | ANY)',
                'PUSH("a") ~ ((b ~ "!") | ("bba" ~ POP))']
+    # a stack-slice match that fails part-way, as the direct operand of | ? *
+    stackg += ['PUSH("a") ~ PUSH("b") ~ (PEEK_ALL | "b" ~ "c") ~ EOI', 'PUSH("ab") ~ PUSH("b") ~ (PEEK[0..2] | ANY*) ~ EOI', 'PUSH("a") ~ PUSH("b") ~ PEEK_ALL? ~ ANY*',
+               'PUSH("a") ~ PUSH("b") ~ PEEK[..]* ~ ANY ~ EOI', 'PUSH(ANY) ~ PUSH(ANY) ~ (POP_ALL | ANY) ~ ANY?']
     for s in stackg:
         out.append(grammar_text(s)); out.append(grammar_text(s, "", '"b"', "", '_{ " " }'))
     out.append(grammar_text('PUSH("a") ~ ((b ~ "!") | ("bba" ~ POP))', "", 'PUSH("b") ~ (POP ~ POP)', ""))
